@@ -17,6 +17,11 @@ package internal
 //@ macro MONO = len(c.errors) >= old(len(c.errors))
 //@ macro REPORTED = implies(result == nil, len(c.errors) > old(len(c.errors))) && len(c.errors) >= old(len(c.errors))
 
+//@ macro NOBJ(T) = pure("(*go/types.Named).Obj", dataof(T))
+//@ macro ISCTX(T) = (typeof(T) == typeid("*go/types.Named") && pure("(*go/types.object).Pkg", addr0($NOBJ(T))) != 0 && pure("(*go/types.Package).Path", pure("(*go/types.object).Pkg", addr0($NOBJ(T)))) == "context" && pure("(*go/types.object).Name", addr0($NOBJ(T))) == "Context")
+
+//@ macro ISERR(T) = (typeof(T) == typeid("*go/types.Named") && pure("(*go/types.object).Pkg", addr0($NOBJ(T))) == 0 && pure("(*go/types.object).Name", addr0($NOBJ(T))) == "error")
+
 //@ macro C = c != nil && c.info != nil
 
 // ---------------------------------------------------------------------------
@@ -101,10 +106,12 @@ package internal
 
 //@ func isContext
 //@   option props=[C13]
+//@   ensures [C04,C14] the-context-type-is-recognised-by-package-and-name: result == $ISCTX(t)
 
 //@ func isError
 //@   option props=[C13]
 //@   ensures [C13] only-named-types-are-errors: implies(result, typeof(t) == typeid("*go/types.Named"))
+//@   ensures [C07,C14] the-error-type-is-recognised-as-the-universe-type-named-error: result == $ISERR(t)
 
 //@ func isPackagePathEquivalent
 //@   option props=[C13]
@@ -166,6 +173,7 @@ package internal
 
 //@ macro PARAMS(SG) = pure("(*go/types.Signature).Params", SG)
 //@ macro TLEN(TP) = pure("(*go/types.Tuple).Len", TP)
+//@ macro NRESULTSOF(SG) = pure("(*go/types.Tuple).Len", pure("(*go/types.Signature).Results", SG))
 //@ macro VTYPE(TP, KK) = pure("(*go/types.object).Type", addr0(pure("(*go/types.Tuple).At", TP, KK)))
 
 // C14: nothing is rejected silently. errf records exactly one diagnostic; every
@@ -187,6 +195,16 @@ package internal
 //@   ensures [C13] an-error-result-is-the-last-and-of-a-named-type: implies(result != nil && result.HasError, typeof(pure("(*go/types.object).Type", addr0(pure("(*go/types.Tuple).At", pure("(*go/types.Signature).Results", result.Sig), pure("(*go/types.Tuple).Len", pure("(*go/types.Signature).Results", result.Sig)) - 1)))) == typeid("*go/types.Named"))
 //@   ensures [C02,C11,C13] inputs-are-the-non-context-parameters-in-order: implies(result != nil, len(result.Inputs) + ite(result.WantCtx, 1, 0) == $TLEN($PARAMS(result.Sig)) && forall(j, int, implies(0 <= j && j < len(result.Inputs), result.Inputs[j] == $VTYPE($PARAMS(result.Sig), j + ite(result.WantCtx, 1, 0)))))
 //@   ensures [C02,C13] outputs-are-the-leading-results-in-order: implies(result != nil, forall(j, int, implies(0 <= j && j < len(result.Outputs), result.Outputs[j] == $VTYPE(pure("(*go/types.Signature).Results", result.Sig), j))))
+//@   loop 1 invariant [C04,C14] only-a-leading-context-parameter-is-taken-as-the-context: implies(f.WantCtx, $ISCTX($VTYPE($PARAMS(f.Sig), 0))) && forall(j, int, implies(0 <= j && j < len(f.Inputs), !$ISCTX(f.Inputs[j])))
+//@   ensures [C04,C14] the-context-is-wanted-exactly-when-the-first-parameter-is-a-context: implies(result != nil, result.WantCtx == ($TLEN($PARAMS(result.Sig)) > 0 && $ISCTX($VTYPE($PARAMS(result.Sig), 0))) && forall(j, int, implies(0 <= j && j < len(result.Inputs), !$ISCTX(result.Inputs[j]))))
+//@   loop 2 invariant [C07,C14] only-a-trailing-error-result-is-taken-as-the-error: implies(f.HasError, $ISERR($LASTTYPE)) && forall(j, int, implies(0 <= j && j < len(f.Outputs), !$ISERR(f.Outputs[j])))
+//@   ensures [C07,C14] an-error-is-expected-exactly-when-the-last-result-is-an-error: implies(result != nil, result.HasError == ($NRESULTSOF(result.Sig) > 0 && $ISERR($VTYPE(pure("(*go/types.Signature).Results", result.Sig), $NRESULTSOF(result.Sig) - 1))) && forall(j, int, implies(0 <= j && j < len(result.Outputs), !$ISERR(result.Outputs[j]))))
+//@   ghost vari bool = false
+//@   at call Variadic 1 ghost vari = ret
+//@   ensures [C14] an-accepted-function-is-not-variadic: implies(result != nil, !vari)
+//@   at call errf 2 pre assert [C14] rejected-as-variadic-only-if-variadic: vari
+//@   at call errf 3 pre assert [C14] a-context-is-rejected-only-when-it-is-not-the-first-parameter: i != 0 && $ISCTX(ptype)
+//@   at call errf 4 pre assert [C14] an-error-is-rejected-only-when-it-is-not-the-last-result: i != $NRESULTS - 1 && $ISERR(rtype)
 //@   ensures [C13] signature-is-the-underlying-type-of-the-expression: implies(result != nil, result.Sig == dataof(pure("invoke go/types.Type.Underlying", pure("(*go/types.Info).TypeOf", c.info, expr))))
 
 //@ func (*flow).addPredicateOutput
@@ -237,6 +255,11 @@ package internal
 //@   loop 1 invariant collected-tasks-are-non-nil: $PAROK
 //@   loop 2 invariant [C14] slice-end-with-continue-on-error-reported-so-far: $PAROK && 0 <= idx2 && idx2 <= len(parallel.SliceTasks) && forall(i, int, implies(0 <= i && i < idx2 && parallel.SliceTasks[i].SliceEndFn != nil && parallel.ContinueOnError != nil, rs[i]))
 //@   at call errf 5 ghost rs[idx2] = true
+//@   at call errf 5 pre assert [C14] a-slice-end-is-rejected-only-together-with-continue-on-error: s.SliceEndFn != nil && parallel.ContinueOnError != nil
+//@   at call errf 6 pre assert [C14] a-map-end-is-rejected-only-together-with-continue-on-error: m.MapEndFn != nil && parallel.ContinueOnError != nil
+//@   ensures [C14] only-a-parallel-without-functions-is-rejected-outright: (result == nil) == (len(call.Args) == 1)
+//@   ensures [C14] a-rejected-directive-part-is-reported: implies(result == nil, len(c.errors) > old(len(c.errors)))
+//@   at store modifiers 1 assert [C20] a-modifier-is-appended-for-the-recorded-option: len(val) >= 1
 //@   loop 3 invariant [C14] map-end-with-continue-on-error-reported-so-far: $PAROK && 0 <= idx3 && idx3 <= len(parallel.MapTasks) && forall(i, int, implies(0 <= i && i < idx3 && parallel.MapTasks[i].MapEndFn != nil && parallel.ContinueOnError != nil, rm[i])) && forall(i, int, implies(0 <= i && i < len(parallel.SliceTasks) && parallel.SliceTasks[i].SliceEndFn != nil && parallel.ContinueOnError != nil, rs[i]))
 //@   at call errf 6 ghost rm[idx3] = true
 //@   ensures@return2 [C14] every-end-hook-under-continue-on-error-was-reported: forall(i, int, implies(0 <= i && i < len(result.SliceTasks) && result.SliceTasks[i].SliceEndFn != nil && result.ContinueOnError != nil, rs[i])) && forall(i, int, implies(0 <= i && i < len(result.MapTasks) && result.MapTasks[i].MapEndFn != nil && result.ContinueOnError != nil, rm[i]))
